@@ -5,7 +5,7 @@ import depslib
 
 
 def run(ctx):
-    ctx.prove(["Props/%s.vo" % ctx.pid, "Run/eval_deps.vo"], extra_props=["Engine_progress"])   # + deadlock freedom / termination: final states are reachable
+    ctx.prove(["Props/%s.vo" % ctx.pid, "Run/eval_deps.vo"], extra_props=["Engine_progress", "Engine_bigstep"])   # + deadlock freedom / termination: final states are reachable
     import extractlib; extractlib.fn_tie(ctx, ['displayName'])   # pure functions translated from the current source, re-proved equal to the models' (tools/notes/Translator.md)
     ctx.trusted_base += depslib_trusted()
     depslib.run_engine_check(ctx, ctx.pid, 400 if ctx.quick else 6000)
